@@ -64,7 +64,7 @@ FieldMask = EC.cls(".google.protobuf.FieldMask")
 Empty = EC.cls(".google.protobuf.Empty")
 GetOperationRequest = EC.cls(".google.longrunning.GetOperationRequest")
 
-RPCS = ["get_book", "create_book", "update_book", "delete_book", "tag_book", "move_book", "stream_books",
+RPCS = ["get_book", "create_book", "update_book", "delete_book", "tag_book", "move_book", "classify_book", "route_override", "stream_books",
         "upload", "chat", "import_", "create_channel_", "no_sig", "ping", "check_operation", "mask", "list_books",
         "write_book", "route_simple", "route_rename", "route_multi", "route_nested"]
 STREAMING_REPLY = {"stream_books", "chat"}
@@ -99,7 +99,7 @@ class _AsyncRec(fakes.Recorder):
 OPTS = dict(retry="RETRY", timeout=3.5, metadata=(("a", "b"),))
 
 # lift every method now (at import, outside CrossHair's tracing) and give it the recording gapic_v1 shim
-METHODS = ["get_book", "create_book", "update_book", "delete_book", "tag_book", "move_book", "stream_books",
+METHODS = ["get_book", "create_book", "update_book", "delete_book", "tag_book", "move_book", "classify_book", "route_override", "stream_books",
            "upload", "chat", "import_", "create_channel", "no_sig", "ping", "check_operation", "mask", "list_books",
            "write_book", "route_simple", "route_rename", "route_multi", "route_nested"]
 for _w, _c in (("client", "LibraryClient"), ("async_client", "LibraryAsyncClient")):
@@ -399,6 +399,36 @@ def flat_move_book(req_kind: int, r_name: Optional[int], k_name: Optional[int], 
             name = NAMES[r_name]
         exp = lambda _w: one_call("move_book", w, hdr(("book.name", name)))
     return both("move_book", lambda: as_kind(req_kind, M["MoveBookRequest"], fields()), kwargs, exp)
+
+
+def flat_classify_book(req_kind: int, r_class: Optional[int], k_class: Optional[int], k_other: Optional[int]) -> bool:
+    """
+    pre: pk(req_kind) and 0 <= req_kind <= 2 and ok_sel(r_class, 2) and ok_sel(k_class, 2) and ok_sel(k_other, 2)
+    pre: req_kind != 0 or r_class is None
+    pre: lo(req_kind, k_class, k_other)
+    post: _
+    """
+    # dotted path whose LEAF is a reserved word: signature "book.class" -> parameter class_, wire key book.class
+    def fields():
+        return {} if r_class is None else {"book": Book(class_=CLASSES[r_class])}
+    kwargs = {}
+    if k_class is not None:
+        kwargs["class_"] = CLASSES[k_class]
+    if k_other is not None:
+        kwargs["other_shelf"] = PARENTS[k_other]
+    if req_kind != 0 and kwargs:
+        exp = lambda w: ("ValueError", None, None)
+    else:
+        w = {}
+        if req_kind == 0:
+            if k_class is not None:
+                w["book"] = {"class": CLASSES[k_class]} if CLASSES[k_class] else {}
+            if k_other is not None and PARENTS[k_other]:
+                w["other_shelf"] = PARENTS[k_other]
+        elif r_class is not None:
+            w["book"] = {"class": CLASSES[r_class]} if CLASSES[r_class] else {}
+        exp = lambda _w: one_call("classify_book", w, hdr(("book.name", "")))
+    return both("classify_book", lambda: as_kind(req_kind, M["MoveBookRequest"], fields()), kwargs, exp)
 
 
 MASKS = [lambda: FieldMask(), lambda: FieldMask(paths=["a", "b"])]
@@ -703,6 +733,30 @@ def route_rename(req_kind: int, prof: Optional[int]) -> bool:
                 lambda _w: one_call("route_rename", w, *hs))
 
 
+def route_override(req_kind: int, table: Optional[int], prof: Optional[int]) -> bool:
+    """
+    pre: pk(req_kind) and 1 <= req_kind <= 2 and ok_sel(table, 8) and ok_sel(prof, 4)
+    post: _
+    """
+    # two parameters reading DIFFERENT fields produce the same key: the later one (app_profile_id) wins when it matches
+    fields = {}
+    if table is not None:
+        fields["table_name"] = TABLES[table]
+    if prof is not None:
+        fields["app_profile_id"] = PROFILES[prof]
+    t, p = fields.get("table_name", ""), fields.get("app_profile_id", "")
+    val = None
+    c = ref_match([("lit", "projects", True), ("star", None, True), ("dstar", None, False)], t)
+    if c:
+        val = c
+    if p:
+        val = p
+    hs = (hdr(("routing_id", val)),) if val else ()
+    w = {k: v for k, v in (("table_name", t), ("app_profile_id", p)) if v}
+    return both("route_override", lambda: as_kind(req_kind, M["RouteRequest"], fields), {},
+                lambda _w: one_call("route_override", w, *hs))
+
+
 def route_multi(req_kind: int, table: Optional[int], prof: Optional[int]) -> bool:
     """
     pre: pk(req_kind) and 1 <= req_kind <= 2 and ok_sel(table, 8) and ok_sel(prof, 4)
@@ -848,17 +902,17 @@ def twin_route(table: Optional[int]) -> bool:
     return not (route_multi(1, table, None) and table == 3)
 
 
-C05_FUNCS = ["flat_get_book", "flat_create_book", "flat_tag_book", "flat_move_book", "flat_update_book",
+C05_FUNCS = ["flat_get_book", "flat_create_book", "flat_tag_book", "flat_move_book", "flat_classify_book", "flat_update_book",
              "flat_delete_book", "flat_check_operation", "flat_mask", "flat_import", "flat_stream_books"]
 C03_FUNCS = ["disp_simple", "disp_streams", "disp_defaults", "flat_get_book", "flat_delete_book",
              "flat_stream_books", "flat_import", "flat_check_operation", "wire_list_books", "wire_write_book"]
-C06_FUNCS = ["route_simple", "route_rename", "route_multi", "route_nested"]
+C06_FUNCS = ["route_simple", "route_rename", "route_override", "route_multi", "route_nested"]
 C18_FUNCS = ["uuid_create_book", "uuid_two_calls", "uuid_absent_elsewhere"]
 
 EXPECTED_SIGNATURES = {
     "get_book": ["name"], "create_book": ["parent", "book", "book_id"], "update_book": ["book", "update_mask"],
     "delete_book": ["name"], "tag_book": ["name", "tags", "labels", "class_", "from_"],
-    "move_book": ["name", "other_shelf"], "stream_books": ["parent"], "import_": ["source"],
+    "move_book": ["name", "other_shelf"], "classify_book": ["class_", "other_shelf"], "stream_books": ["parent"], "import_": ["source"],
     "check_operation": ["name"], "mask": ["paths"], "list_books": ["parent"], "write_book": ["name"],
     "no_sig": [], "ping": [], "create_channel": [], "route_simple": [], "route_multi": [],
 }
